@@ -1,4 +1,5 @@
 import InTotoModel.Lemmas.Codec
+import InTotoModel.Lemmas.TimeParse
 /-
   C16 — Layout, link and signed-block metadata survive a wire round trip unchanged.
 
@@ -17,8 +18,11 @@ import InTotoModel.Lemmas.Codec
     verbatim, the encoding of the fields it returns - rule keyword and prefixes, threshold, digests
     (lower-case hex only), key ids, command arguments, environment entries;
   * a parsed layout's key table only holds entries filed under the key's own id.
-  Parameters (not modelled, `DocEnv`): reading/writing one public key and its intrinsic id (C12),
-  chrono's RFC 3339 reader/writer.  Known findings (see known_findings.json): a byproducts
+  Parameter (not modelled, `DocEnv`): reading/writing one public key and its intrinsic id (C12).
+  The RFC 3339 reader/writer of `expires` is a parameter of the general theorems and is instantiated
+  with the model of chrono's (`Model/Time.lean`, `DocEnv.withStdTime`) in the `_std` theorems: there
+  the expiry hypotheses of `LayoutGood` are proved, for every whole-second instant of the years
+  0000–9999.  Known findings (see known_findings.json): a byproducts
   extra-field map that reuses a reserved member name, an expiry after year 9999.
 -/
 namespace InToto.Wire
@@ -97,6 +101,53 @@ variable {K : Type}
 /-- A layout survives the wire (given that its keys and its expiry do, `LayoutGood`). -/
 theorem c16_layout_round_trip (E : DocEnv K) (L : LayoutW K) (h : LayoutGood E L) :
     layoutOfJson E (layoutToJson E L) = some L := layout_round_trip E L h
+
+theorem withStdTime_parseTime (E : DocEnv K) : E.withStdTime.parseTime = Time.parseTimeKey := by
+  unfold DocEnv.withStdTime; rfl
+theorem withStdTime_fmtTime (E : DocEnv K) : E.withStdTime.fmtTime = Time.fmtTimeKey := by
+  unfold DocEnv.withStdTime; rfl
+theorem withStdTime_kidOf (E : DocEnv K) : E.withStdTime.kidOf = E.kidOf := by
+  unfold DocEnv.withStdTime; rfl
+theorem withStdTime_keyOfJson (E : DocEnv K) : E.withStdTime.keyOfJson = E.keyOfJson := by
+  unfold DocEnv.withStdTime; rfl
+theorem withStdTime_keyToJson (E : DocEnv K) : E.withStdTime.keyToJson = E.keyToJson := by
+  unfold DocEnv.withStdTime; rfl
+
+/-- With the modelled RFC 3339 reader/writer the expiry conditions of `LayoutGood` hold for every
+    whole-second instant of the years 0000–9999 (`Time.WholeKey`), so a layout survives the wire given
+    only that its keys do. -/
+theorem c16_layout_round_trip_std (E : DocEnv K) (L : LayoutW K)
+    (hkeys : ∀ p ∈ L.keys, keyIdOk p.1 = true ∧ E.kidOf p.2 = p.1 ∧ E.keyOfJson (E.keyToJson p.2) = some p.2)
+    (hexp : Time.WholeKey L.expires) (hsteps : ∀ s ∈ L.steps, s.WF) :
+    layoutOfJson E.withStdTime (layoutToJson E.withStdTime L) = some L := by
+  apply layout_round_trip E.withStdTime L
+  constructor
+  · rw [withStdTime_kidOf, withStdTime_keyOfJson, withStdTime_keyToJson]; exact hkeys
+  · rw [withStdTime_parseTime, withStdTime_fmtTime]
+    exact Time.parseTimeKey_fmtTimeKey hexp
+  · unfold truncSec; exact Time.truncKey_wholeKey hexp
+  · exact hsteps
+
+/-- With the modelled reader the expiry a layout reader returns is the instant the document's text
+    denotes under RFC 3339, kept to the second. -/
+theorem c16_layout_expiry_is_the_instant_of_the_text (E : DocEnv K) {kvs : List (Str × JV)} {L : LayoutW K}
+    (h : layoutOfJson E.withStdTime (.obj kvs) = some L) :
+    ∃ text i, getField kExpires kvs = some (.str text) ∧ Time.parseRfc3339 text = some i ∧
+      L.expires = (Time.truncWhole i).key := by
+  obtain ⟨_, ⟨t, k, h1, h2, h3⟩, _⟩ := layout_faithful E.withStdTime h
+  have h2' : Time.parseTimeKey t = some k := by rw [← withStdTime_parseTime E]; exact h2
+  unfold Time.parseTimeKey at h2'
+  cases hp : Time.parseRfc3339 t with
+  | none => rw [hp] at h2'; cases h2'
+  | some i =>
+    rw [hp] at h2'
+    simp only [Option.map_some, Option.some.injEq] at h2'
+    refine ⟨t, i, h1, hp, ?_⟩
+    rw [h3, ← h2']
+    unfold truncSec
+    -- the reader only yields instants with nanos < 2·10⁹
+    have hn : i.nanos < 2000000000 := Time.parse_nanos_lt hp
+    exact Time.truncKey_key i hn
 
 /-- The layout reader: readme, steps and inspections are what the document says, the expiry is the
     instant the document's text denotes (to the second), and every entry of the parsed key table is
